@@ -1156,6 +1156,8 @@ htp_status_t htp_connp_RES_FINALIZE(htp_connp_t *connp) {
     }
     size_t bytes_left;
     unsigned char * data;
+    int line_buffered = (connp->out_buf != NULL);
+    size_t bytes_in_chunk = (size_t) (connp->out_current_read_offset - connp->out_current_consume_offset);
 
     if (htp_connp_res_consolidate_data(connp, &data, &bytes_left) != HTP_OK) {
         return HTP_ERROR;
@@ -1178,7 +1180,13 @@ htp_status_t htp_connp_RES_FINALIZE(htp_connp_t *connp) {
     }
 
     //unread last end of line so that RES_LINE works
-    if (connp->out_current_read_offset < (int64_t)bytes_left) {
+    if (line_buffered) {
+        // The beginning of the line stays in the buffer; give back only
+        // the part that came from the current data chunk.
+        connp->out_buf_size -= bytes_in_chunk;
+        connp->out_current_read_offset -= bytes_in_chunk;
+        connp->out_current_consume_offset = connp->out_current_read_offset;
+    } else if (connp->out_current_read_offset < (int64_t)bytes_left) {
         connp->out_current_read_offset=0;
     } else {
         connp->out_current_read_offset-=bytes_left;
